@@ -280,3 +280,12 @@ Definition chunk_state (st : arrty * N) (es : list event) : arrty * N := fold_le
 (* all six measures *)
 Definition within_limits_full (cfg : rcfg) (es : list event) : Prop :=
   within_limits cfg es /\ length_ok cfg (chunked_array_usage es) = true.
+
+(* event lists inside the fragment of [doc] *)
+Definition in_fragment (es : list event) : bool :=
+  forallb (fun e => match e with
+                    | EMarker _ | ERefLocal _ | EArrayBegin _ | EMediaBegin _ | ECustomBegin _ _ | EArrayChunk _ _ | EArrayData _
+                    | EMedia _ _ | ECustomBin _ _ | ECustomText _ _ => false
+                    | EArray t _ _ => negb ((t =? AT_String) || (t =? AT_ResourceID))
+                    | _ => true
+                    end) es.
